@@ -5,15 +5,24 @@
 (*  811 constructor on the real MmioTransport over the emulated register file                           *)
 (*        ins  [version; driver; mode; offered; p1; p2; utf8; ng; gens..; nc; cfg..; nq; answers..]      *)
 (*        outs [class; code] ++ register accesses (20 w off width val) interleaved with the kept events *)
+(*  812 constructor on the real PciTransport over the emulated PCI function (Model/InitPci.v)            *)
+(*        ins  [driver; mode; offered; p1; p2; utf8; notify_len; multiplier; cfg_present; cfg_vaddr; nn; queue_notify_off..;  *)
+(*              ng; gens..; nc; cfg..; nq; answers..]                                                   *)
+(*        outs [class; code] ++ window accesses (21 win w off width val) interleaved with the kept events *)
 (*  820 feature-gated operation on a constructed driver (model transport)                               *)
 (*        ins  [driver; offered; generation; opcode; arg; nc; cfg..]   outs [class; code; used_event] ++ events *)
 (*  850 MONITOR handshake on the observed transport-call log   ins [driver; offered; returned_ok] ++ events *)
 (*  851 MONITOR handshake on the observed MMIO register log    ins [driver; offered; returned_ok] ++ accesses (w off width val) *)
 (*  852 MONITOR negotiated flags and queues                    ins [driver; offered; p1; returned_ok] ++ events *)
 (*  853 MONITOR feature-gated operation                        ins [driver; offered; opcode; class; code; saw_indirect; used_event] ++ events *)
+(*  854 MONITOR handshake + PCI access rules on the observed window accesses                           *)
+(*        ins [driver; offered; returned_ok; multiplier] ++ accesses (win w off width val)              *)
+(*        win 0 common cfg, 1 notify, 2 ISR, 3 device cfg; 9 = outside every window; 8 = the harness     *)
+(*        reports a poll of device_status the device had to break (a wait that never ends). Written once *)
+(*        for the construction (returned_ok as observed) and once for the whole life incl. the drop (0). *)
 (* Event encoding: 1 s | 2 | 3 f | 4 p | 5 q ind ev ap | 6 q | 7 q | 8 pages dir paddr ap |              *)
 (*   9 q size desc drv dev | 10 | 11 off len | 12 off len | 13 len dir ap | 14 q                         *)
-From VD Require Import Base.Words Model.Layout Model.Init Model.Mmio Model.InitSpec.
+From VD Require Import Base.Words Model.Layout Model.Init Model.Mmio Model.InitSpec Model.InitPci.
 
 Definition ibad : list N := [77777].
 
@@ -127,6 +136,45 @@ Definition run_construct_mmio (ins : list N) : list N :=
   | _ => ibad
   end.
 
+(* ---------- the real PciTransport ---------- *)
+Definition enc_pacc (a : pacc) : list N := [p_win a; b2n (p_write a); p_off a; p_width a; p_val a].
+Definition enc_pracc (r : pracc) : list N :=
+  match r with
+  | PAcc a => 21 :: enc_pacc a
+  | PKeep e => enc_tev e
+  end.
+Definition enc_praccs (l : list pracc) : list N := concat (map enc_pracc l).
+
+Fixpoint dec_paccs (fuel : nat) (l : list N) : list pacc :=
+  match fuel, l with
+  | S k, win :: w :: off :: width :: val :: rest => mkP win (n2b w) off width val :: dec_paccs k rest
+  | _, _ => []
+  end.
+
+Definition run_construct_pci (ins : list N) : list N :=
+  match ins with
+  | d :: m :: offered :: p1 :: p2 :: utf8 :: nlen :: mult :: cfgp :: cfgva :: nn :: r =>
+      let noffs := firstn (cnt_l nn r) r in
+      match dec_driver d, dec_env_tail (skipn (cnt_l nn r) r) with
+      | Some d, Some (g, c, q) =>
+          let pe := mkPe nlen mult noffs (n2b cfgp) cfgva in
+          let e := mkEnv (dec_mode m) TKPci false offered c g q p1 p2 (n2b utf8) in
+          let '(o, l) := construct_pci d pe e in enc_outcome o ++ enc_praccs l
+      | _, _ => ibad
+      end
+  | _ => ibad
+  end.
+
+Definition mon_handshake_pci (ins : list N) : list N :=
+  match ins with
+  | d :: offered :: ok :: mult :: tr =>
+      match dec_driver d with
+      | Some d => [b2n (pci_handshake_b (supported d) offered mult (n2b ok) (dec_paccs (length tr) tr))]
+      | None => ibad
+      end
+  | _ => ibad
+  end.
+
 Definition dec_gop (opc arg : N) : option gop :=
   match opc with
   | 1 => Some GBlkReadonly | 2 => Some GBlkFlush | 3 => Some GConsoleSize | 4 => Some GConsoleEmergWrite
@@ -201,11 +249,13 @@ Definition mon_gate (ins : list N) : list N :=
 Definition init_step (k : N) (ins : list N) : list N :=
   if k =? 810 then run_construct ins else
   if k =? 811 then run_construct_mmio ins else
+  if k =? 812 then run_construct_pci ins else
   if k =? 820 then run_gop ins else
   if k =? 850 then mon_handshake ins else
   if k =? 851 then mon_handshake_mmio ins else
   if k =? 852 then mon_flags ins else
   if k =? 853 then mon_gate ins else
+  if k =? 854 then mon_handshake_pci ins else
   ibad.
 
 Definition init_is_monitor (k : N) : bool := (850 <=? k) && (k <? 860).
